@@ -90,11 +90,15 @@ def overrides_from_model(system, enc, model):
 
 
 def decide(run, ob, family, op, params, ins, spec, k=10, timeout=60, drop=(), monomial_mode=False, P=csmt.P_BLS,
-           expect_inadmissible=False):
+           variants=()):
     """Decide `forall assignment. Sys => Spec` for one extracted operation.
 
     spec(e, I, O) -> SMT Bool string. I, O: atoms (smt names or python ints) of the input / output
-    instance cells in call order."""
+    instance cells in call order.
+    variants: [(suffix, pred(e, I, O) -> SMT Bool)] — named classes of counterexamples. A replayed
+    violation falling in class `suffix` gets key `<key>:<suffix>`; if that key is a listed known finding
+    the class is excluded from the query and the search continues, so that any OTHER violation of the
+    same operation is still reported."""
     t0 = time.time()
     ob.functions = ob.functions or [f"{family}::{op}"]
     try:
@@ -137,12 +141,19 @@ def decide(run, ob, family, op, params, ins, spec, k=10, timeout=60, drop=(), mo
     ob.vacuity = True
     # ---- main query with refinement ----
     extra = [f"(assert (not {spec_smt}))"]
-    for rnd in range(6):
+    known = core.load_known()
+    base_key = ob.key
+    known_hits, known_replay = [], None
+    for rnd in range(8):
         atoms = names + [it[1] for it in e.order]
         r = solvers.solve(e.text(extra), timeout=timeout, get_values=atoms)
         ob.queries += 1
         ob.solver_s += r.time_s
         if r.status == "unsat":
+            if known_hits:
+                # everything outside the listed known-finding classes holds
+                ob.key = f"{base_key}:{known_hits[0]}"
+                return ob.set(core.KNOWN, f"only the listed known finding(s) {known_hits} violate the specification; all other assignments hold", solver=r.solver, replay=known_replay)
             return ob.set(HOLDS, solver=r.solver)
         if r.status != "sat":
             return ob.set(INCONCLUSIVE, f"solver: {r.status} {r.raw[:200]} {r.per_solver}")
@@ -164,6 +175,24 @@ def decide(run, ob, family, op, params, ins, spec, k=10, timeout=60, drop=(), mo
                 res, err = replay(family, op, params, ins, k, ov)
                 iv = {c: hex(cls_assign.get(system.cls(c), system.const.get(system.cls(c), 0))) for c in system.ins + system.outs}
                 if res and res.get("accepted"):
+                    cls_suffix = None
+                    for suffix, pred in variants:
+                        r3 = solvers.solve(e.text(pins + [f"(assert {pred(e, Iat, Oat)})"]), timeout=timeout)
+                        ob.queries += 1
+                        if r3.status == "sat":
+                            cls_suffix = suffix
+                            break
+                    if cls_suffix and (run.pid, f"{base_key}:{cls_suffix}") in known:
+                        # listed known finding: record it, exclude its class, keep searching
+                        known_hits.append(cls_suffix)
+                        path = run.write_replay(ob, dict(kind="forged-assignment", cx=cx_args(family, op, params, ins, k),
+                                                         overrides=ov, instance=iv, key=f"{base_key}:{cls_suffix}"))
+                        known_replay = path
+                        pred_smt = [p for sfx, p in variants if sfx == cls_suffix][0](e, Iat, Oat)
+                        extra.append(f"(assert (not {pred_smt}))")
+                        continue
+                    if cls_suffix:
+                        ob.key = f"{base_key}:{cls_suffix}"
                     path = run.write_replay(ob, dict(kind="forged-assignment", cx=cx_args(family, op, params, ins, k),
                                                      overrides=ov, instance=iv,
                                                      note="real MockProver::verify() accepts this assignment although the (inputs, outputs) on the instance column violate the operation's specification"))
@@ -218,7 +247,7 @@ def run_family(run, family, entries, timeout=60, workers=8, only=None, engine="C
             return
         try:
             decide(run, ob, family, ent["op"], ent["params"], ent["ins"], ent["spec"], k=ent["k"], timeout=timeout,
-                   monomial_mode=ent.get("monomial", False))
+                   monomial_mode=ent.get("monomial", False), variants=ent.get("variants", ()))
         except Exception as ex:  # noqa
             import traceback
             ob.set(INCONCLUSIVE, f"engine error: {ex!r} {traceback.format_exc()[-400:]}")
